@@ -116,7 +116,6 @@ static void check_block(const char *meta, size_t n, const std::vector<Entry> &es
     vp::outcome("n=" + std::to_string(es.size()) + ":" + sh);
 }
 
-static bool g_count_only = false;   // the largest thorough family: counted as states, not hashed into the non-trivial set
 static void generated_case(const std::vector<Entry> &es, const std::string &cid)
 {
     vp::current_case() = cid;
@@ -129,7 +128,7 @@ static void generated_case(const std::vector<Entry> &es, const std::string &cid)
     // the library must not have written into the block
     if(memcmp(buf, b.data(), b.size())) vp::violation("block-modified|meta()|" + sh, cid, show_entries(es));
     free(buf);
-    if(!g_count_only && (sh.compare(0, 5, "plain") != 0 || es.size() > 1)) vp::nontrivial(vp::fnv(b));
+    if((sh.compare(0, 5, "plain") != 0 || es.size() > 1)) vp::nontrivial(vp::fnv(b));
 }
 
 struct Family { const char *name; std::vector<std::string> keys; std::vector<Entry> vals; };   // vals: key unused
@@ -246,10 +245,12 @@ int main(int argc, char **argv)
     vp::init(argc, argv, "C17");
     const bool T = vp::thorough();
     Family full = make_family("full", strings_upto("ab 1", 1, 2), strings_upto("a:= 1", 0, 2));
+    Family wide = make_family("wide", strings_upto("ab 1", 1, 2), strings_upto("a:=", 0, 2));
     Family medium = make_family("medium", {"a", "b", "ab", "a ", "1", "b1"}, {"", "a", ":", "=", " ", "1", ":a", "a:", "=:", ":=", "a="});
     Family small = make_family("small", {"a", "b", "ab", " 1"}, {"", "a", ":", "=", ":a", "a:", "=:"});
     Family tiny = make_family("tiny", {"a", "ab"}, {"", ":", "a"});
-    vp::bound("family_full", "20 keys (length 1..2 over {a,b,' ',1}) x 32 values (absent, length 0..2 over {a,':','=',' ',1}): all blocks of 1..2 entries" + std::string(T ? " and of 3 entries" : ""));
+    vp::bound("family_full", "20 keys (length 1..2 over {a,b,' ',1}) x 32 values (absent, length 0..2 over {a,':','=',' ',1}): all blocks of 1..2 entries");
+    if(T) vp::bound("family_wide", "20 keys x 14 values (absent, length 0..2 over {a,':','='}): all blocks of 3 entries");
     vp::bound("family_medium", "6 keys x 12 values: all blocks of 3 entries" + std::string(T ? " and of 4 entries" : ""));
     vp::bound("family_small", "4 keys x 8 values: all blocks of 4 entries" + std::string(T ? " and of 5 entries" : ""));
     vp::bound("family_tiny", "2 keys x 4 values: all blocks of 5.." + std::string(T ? "8" : "7") + " entries");
@@ -264,8 +265,7 @@ int main(int argc, char **argv)
         run_family(tiny, 8);
         run_family(small, 5);
         run_family(medium, 4);
-        g_count_only = true;
-        run_family(full, 3);
+        run_family(wide, 3);
     }
     return vp::finish();
 }
